@@ -39,6 +39,9 @@ def canon(jwk):
 KIND = {"newAccount": "newAccount", "account": "accountUpdate", "keyChange": "keyChange", "newOrder": "newOrder",
         "order": "orderPoll", "finalize": "finalize", "cert": "certDownload"}
 PAYLOAD_IS_INPUT = ("accountUpdate", "newOrder", "finalize")
+# (a POST-as-GET of the account URL is one of the two queries that precede a roll-over: "accountProbeOld" =
+# signed by the key the endpoint record names, Model.PostBind.oldKeyProbeSite; "accountProbe" = signed by the
+# current key, Model.PostBind.siteOf .accountProbe)
 
 
 def kind_by_payload(r):
@@ -77,6 +80,28 @@ class Replay:
         self.urls = {"authz": [], "chal": [], "order": "", "finalize": "", "cert": ""}
         self.reqs = {}
         self.n_new_account = 0
+        self.cur = {}             # the CLIENT's current key as its own requests show it: {"jwk", "alg"}
+        self.helper = None
+
+    def request(self, r):
+        """What a request tells about the client's current key (whatever the answer will be)."""
+        hdr = r.get("hdr") or {}
+        if r["rk"] == "newAccount" and hdr.get("jwk"):
+            self.cur = {"jwk": hdr["jwk"], "alg": hdr.get("alg", "")}
+        elif r["rk"] == "keyChange":
+            try:
+                ih = json.loads(b64u_dec(json.loads(r.get("payload") or "{}")["protected"]).decode())
+                if ih.get("jwk"):
+                    self.cur = {"jwk": ih["jwk"], "alg": ih.get("alg", "")}
+            except Exception:
+                pass
+
+    def verifies(self, r, key):
+        if not (self.helper and key and key.get("jwk") and "protected_b64" in r):
+            return False
+        v = self.helper.call({"op": "verify_jws", "jwk": key["jwk"], "alg": (r.get("hdr") or {}).get("alg"),
+                              "protected_b64": r["protected_b64"], "payload_b64": r["payload_b64"], "sig_b64": r["sig_b64"]})
+        return bool(v.get("valid"))
 
     def answer(self, a):
         r = self.reqs.get(a.get("for"))
@@ -97,6 +122,10 @@ class Replay:
             self.record[a["location"]] = {"jwk": r["hdr"]["jwk"], "alg": r["hdr"].get("alg", "")}
         elif rk == "keyChange" and st == 200 and r.get("inner_hdr"):
             self.record[r["hdr"].get("kid")] = {"jwk": r["inner_hdr"].get("jwk"), "alg": r["inner_hdr"].get("alg", "")}
+        elif rk == "account" and 200 <= st < 300 and (r.get("payload") or "") == "" and self.cur.get("jwk") \
+                and r.get("_signed_by") == "cur":
+            # the account query signed by the client's current key was answered 2xx: that key is on record
+            self.record[(r.get("hdr") or {}).get("kid")] = dict(self.cur)
         elif rk == "newOrder" and st == 201 and isinstance(body, dict):
             self.urls = {"authz": list(body.get("authorizations", [])), "chal": [], "order": a.get("location") or "",
                          "finalize": body.get("finalize", ""), "cert": body.get("certificate", "")}
@@ -124,6 +153,17 @@ class Replay:
         elif rk == "challenge":
             kind = "challengeReady"
             index = self.urls["chal"].index(dest) if dest in self.urls["chal"] else len(self.urls["chal"])
+        rec0 = self.record.get(self.account_url) or {}
+        if rk == "account" and (r.get("payload") or "") == "":
+            # a POST-as-GET of the account URL: the queries `update_account_key` makes before a roll-over
+            # (acme_proto/account.rs:136-172): signed by the key the record names, or by the current key
+            if self.verifies(r, rec0):
+                kind, r["_signed_by"] = "accountProbeOld", "old"
+            elif self.verifies(r, self.cur):
+                kind, r["_signed_by"] = "accountProbe", "cur"
+            else:
+                # signed by a key no request has shown yet (the new key, before any roll-over request carried it)
+                kind, r["_signed_by"] = "accountProbe", "?"
         pk = kind_by_payload(r)
         if pk is not None and pk != kind:
             # e.g. a CSR sent to the order URL: the model says where THAT call site posts to
@@ -163,8 +203,19 @@ class Replay:
             op["sigs"] = {"cur": inner.get("signature", "") if isinstance(inner, dict) else "", "old": r.get("sig_b64", "")}
             # the payload is the inner object: compared piece by piece below (readable messages)
             meta.update(inner=inner, inner_hdr=ih, old=rec, payload_known=False)
+        elif kind == "accountProbeOld":
+            # prepared like the roll-over (`prepare`): the past key = the key on record, the current key = the new one
+            op["cur"] = {"alg": self.cur.get("alg", ""), "jwk": canon(self.cur["jwk"]) if self.cur.get("jwk") else None}
+            op["old"] = {"alg": rec.get("alg", ""), "jwk": canon(rec["jwk"])} if rec.get("jwk") else None
+            op["sigs"] = {"cur": "", "old": r.get("sig_b64", "")}
+            op["payload_hex"] = ""
+        elif kind == "accountProbe":
+            op["cur"] = {"alg": hdr.get("alg", "") if r.get("_signed_by") == "?" else self.cur.get("alg", ""), "jwk": None}
         else:
-            op["cur"] = {"alg": rec.get("alg", ""), "jwk": None}
+            # every other `kid` request is signed by the client's CURRENT key (`set_data_builder_sync!`); that is
+            # the key on record except between a roll-over the CA processed and the client learning of it
+            op["cur"] = {"alg": (self.cur.get("alg") if r.get("sig_ok") is False and self.verifies(r, self.cur) else None)
+                         or rec.get("alg", ""), "jwk": None}
         return op, meta
 
 
@@ -226,6 +277,7 @@ def extend(ctx, helper, model, results):
     items = []      # (sc, request record, post_site input, meta)
     for res in results:
         rp = Replay(res["sc"])
+        rp.helper = helper
         for e in res["log"]:
             if e["kind"] == "ans":
                 rp.answer(e)
@@ -235,6 +287,8 @@ def extend(ctx, helper, model, results):
             rp.reqs[e.get("gidx")] = e
             if e["method"] != "POST":
                 continue
+            if "hdr" in e:
+                rp.request(e)
             if "hdr" not in e:
                 ctx.count("postbind:undecodable-post")
                 continue
